@@ -387,6 +387,7 @@ def bind_via_robot(case, cls):
                 f.write("from vf import p_tunable as pt\n\n\n"
                         "class M(pt._ROBOT_CLS['mode_cls']):\n"
                         f"    MODE_NAME = {name!r}\n"
+                        "    def __init__(self, *a, **k):\n        super().__init__(*a, **k)\n        pt._ROBOT_CLS['mode_obj'] = self\n"
                         "    def on_enable(self):\n        pass\n    def on_iteration(self, tm):\n        pass\n    def on_disable(self):\n        pass\n")
         hs.resetGlobalHandles()
         DriverStationSim.resetData()
@@ -402,7 +403,7 @@ def bind_via_robot(case, cls):
             return [getattr(robot, name), getattr(robot, case["instances"][1]["name"])]
         if owner == "robot":
             return robot
-        return robot._automodes.modes[name]
+        return _ROBOT_CLS["mode_obj"]     # the mode registered itself when the selector instantiated it
     finally:
         try:
             sys.path.remove(root)
